@@ -140,3 +140,17 @@ Proof.
   intros st s c H1 H2 H3. destruct c; [apply BoundsAll.C03_tree_cols_tiny|apply BoundsAll.C03_tree_lines_tiny]; assumption.
 Qed.
 Print Assumptions C03_trees_input_bounds.
+
+(* (vii) trees whose leaves may also be SourceMapSources WITH an inner source map (class rshape2:
+   the combined-map streamer, within the C09 domain), both column settings *)
+From RS Require Proofs.CombLeafTree Proofs.CombLeafTreeCols Proofs.CombLeafTreeLines.
+Theorem C03_trees_combined_leaves : forall st s c,
+  CombLeafTree.rshape2 s = true -> treeA s = true -> rsmall s = true ->
+  forallb mapping_small (chunk_mappings (fst (fst (stream st s (mkOpts c true))))) = true ->
+  attr_of_map (fst (get_map st s c)) (source s) c = attr_of_stream (fst (fst (stream st s (mkOpts c false)))) c /\
+  is_none (fst (get_map st s c)) = negb (mapped_chunk_exists (fst (fst (stream st s (mkOpts c false))))).
+Proof.
+  intros st s c H1 H2 H3 H4. destruct c;
+    [apply CombLeafTreeCols.C03_tree_cols2|apply CombLeafTreeLines.C03_tree_lines2]; assumption.
+Qed.
+Print Assumptions C03_trees_combined_leaves.
